@@ -1,4 +1,5 @@
 import RxProofs.Lemmas.SubjThm
+import RxProofs.Lemmas.SubjNat
 /-!
 # C23 — an AsyncSubject delivers only the final value
 
@@ -95,6 +96,17 @@ theorem async_empty_completes {cfg : Cfg} {v : Option α} (hv : InitOK cfg v) {s
   have := late_terminal hv (fun _ => Or.inl hhv) who j h hs hd hj (Or.inr hx)
   simp only [termOf, hx] at this
   exact ⟨this.2.1, this.2.2.2.2.1, this.2.2.2.2.2⟩
+
+/-- **async_natural** (C08 for this subject: no value is special).  Renaming every value of a history (and the
+initial value) with an arbitrary function `g` renames the notifications every observer sees and changes nothing
+else: same exceptions per call, same exceptions caught by reacting callbacks, same observers.  AsyncSubject. -/
+theorem async_natural {β : Type} (cfg : Cfg) (g : α → β) (fuel : Nat) (v : Option α) (calls : List (Call α)) (i : Id) :
+    (run cfg fuel (init cfg (v.map g)) (calls.map (Call.map g))).1.log i =
+      ((run cfg fuel (init cfg v) calls).1.log i).map (Notif.map g) ∧
+    (run cfg fuel (init cfg (v.map g)) (calls.map (Call.map g))).2 = (run cfg fuel (init cfg v) calls).2 ∧
+    (run cfg fuel (init cfg (v.map g)) (calls.map (Call.map g))).1.xlog = (run cfg fuel (init cfg v) calls).1.xlog ∧
+    (run cfg fuel (init cfg (v.map g)) (calls.map (Call.map g))).1.observers = (run cfg fuel (init cfg v) calls).1.observers :=
+  run_natural_log cfg g fuel v calls i
 
 theorem run_reachable (cfg : Cfg) (v : Option α) (fuel : Nat) (calls : List (Call α)) :
     Reachable cfg v (run cfg fuel (init cfg v) calls).1 [] :=
